@@ -7,14 +7,20 @@ META = {
             "order); TLC checks value conservation, fee-share sums, intended scripts and order, exact inputs, change-iff-positive and "
             "even split exhaustively over dense small integers, and every case of a second (sparse, partly large-valued) argument "
             "space is executed on the real assemble*Transaction functions with a local Bitcoin chain; the unsigned transaction inside "
-            "the TransactionBuilder is compared input by input and output by output. A sample is signed and run through btcd's script engine.",
+            "the TransactionBuilder is compared input by input and output by output. A sample is signed and run through btcd's script engine. "
+            "The step the wallet actions perform before assembling is part of the model and of the replay: a proposal only names deposits "
+            "(funding transaction, output index, reveal block) and redemption requests (script); the real ValidateDepositSweepProposal / "
+            "ValidateRedemptionProposal (+ DetermineWalletMainUtxo, EnsureWalletSyncedBetweenChains) resolve them against the package's local "
+            "chains and the result is assembled, as execute() does; invariant: the inputs are exactly the UTXOs named by the proposal's keys, "
+            "one each (keys sharing a funding transaction or a reveal block included).",
     "note": "Trusted: btcd (wire, txscript) and the harness' mapping of script labels to real scripts. UTXO values passed by the caller "
             "are taken as the true values (as the code does). Values above 2^31 (TLC integers) are not enumerated.",
     "technique": "TLA+ decision spec enumerated exhaustively by TLC; every generated case replayed through the real assemblers; sampled script-engine validation",
     "design_ref": "DESIGN.md §4.5 C26",
 }
 SPEC = "specs/TxAssembly"
-ACTIONS = ["AssembleDepositSweep", "AssembleRedemption", "AssembleMovingFunds", "AssembleMovedFundsSweep"]
+ACTIONS = ["AssembleDepositSweep", "AssembleRedemption", "AssembleMovingFunds", "AssembleMovedFundsSweep",
+           "ExecuteDepositSweepProposal", "ExecuteRedemptionProposal"]
 
 
 def par(jobs):
@@ -45,9 +51,13 @@ def run(ctx):
     ])
     ctx.require_coverage(r, ACTIONS, "MC_TxAssembly")
     cases = ctx.read_emitted(g, "cases.ndjson")
-    want = ctx.pick(16863, 219525)
-    if len(cases) != want:
-        ctx.broken("expected %d generated cases, got %d" % (want, len(cases)))
+    want = ctx.pick(38187, 0)
+    import re
+    m = re.search(r"Finished computing initial states: (\d+) distinct", r.out)
+    init = int(m.group(1)) if m else 0
+    # the model checker's initial states are exactly the generated cases
+    if (want and len(cases) != want) or len(cases) < 30000 or (init and init != len(cases)):
+        ctx.broken("expected %s generated cases, got %d (model checker: %d initial states)" % (want or ">= 30000", len(cases), init))
     import random
     random.Random(ctx.seed).shuffle(cases)      # which cases get signed depends on the seed
     go = ctx.gotest("pkg/tbtc", "^TestVerif_C26_", ["c26_test.go"], inputs={"cases.ndjson": cases},
@@ -55,7 +65,8 @@ def run(ctx):
                     env={"VERIF_SIGN_EVERY": ctx.pick(12, 40)}, label="assemble", timeout=ctx.pick(900, 2400))
     ctx.absorb(go, require_evals=len(cases))
     counters = (go.reports.get("assemble") or {}).get("counters") or {}
-    for k in ("sweep/built", "redemption/built", "movingFunds/built", "movedFundsSweep/built", "signed_and_script_verified"):
+    for k in ("sweep/built", "redemption/built", "movingFunds/built", "movedFundsSweep/built", "sweepProposal/built",
+              "redemptionProposal/built", "sweepProposal/error:noEvent", "signed_and_script_verified"):
         if counters.get(k, 0) < 20:
             ctx.broken("harness compared only %d cases of class %s" % (counters.get(k, 0), k))
     return ctx.finish(
@@ -63,8 +74,11 @@ def run(ctx):
         rule="all argument combinations of: main UTXO {none, P2PKH, P2WPKH, wrong script class, unknown transaction} x values; 0..3 deposits "
              "(P2SH/P2WSH, with/without extra data, wrong class, unknown funding tx, malformed deposit script) / 0..3 redemption requests "
              "(amount, treasury fee, four redeemer script kinds, duplicates) / 0..3 target wallets (permutations, duplicates) / moved funds "
-             "UTXO; fees incl. not divisible by k and larger than the inputs; change shapes default/first/last. Non-trivial = a transaction "
+             "UTXO; deposit sweep proposals of 1..3 keys over 3-4 outputs of two funding transactions (revealed in block 1/2, for this or "
+             "another wallet, without request, wrong reveal block, unconfirmed / unknown funding transaction) and redemption proposals of 1..3 "
+             "scripts (pending / not pending, same scripts pending for another wallet), resolved by the real Validate*Proposal; "
+             "fees incl. not divisible by k and larger than the inputs; change shapes default/first/last. Non-trivial = a transaction "
              "is built and compared (errors are compared too).",
-        assumptions=["btcd wire/txscript are trusted", "UTXO values given to the assemblers are the true values of the referenced outputs",
+        assumptions=["btcd wire/txscript are trusted", "the Bridge's on-chain proposal validation is replaced by one that accepts (and records) everything", "UTXO values given to the assemblers are the true values of the referenced outputs",
                      "TLC integers: values below 2^31 satoshi"],
         exhaustive=True)
